@@ -49,9 +49,9 @@ Proof.
   { intros n x H. apply SS. now apply (in_map snd _ (n, x)). }
   assert (KO : keep_old c' mn = c').
   { apply csorted_ext; auto.
-    - rewrite keep_old_fold. apply keep_old_sorted. constructor.
-    - intros [n x]. rewrite (cfg_In_get _ n x) by (rewrite keep_old_fold; apply keep_old_sorted; constructor).
-      pose proof (keep_old_spec c' mn NU ND [] n x) as K. rewrite <- keep_old_fold in K. rewrite K. split.
+    - apply keep_old_csorted.
+    - intros [n x]. rewrite (cfg_In_get _ n x) by apply keep_old_csorted.
+      pose proof (keep_old_spec c' mn NU ND [] n x) as K. rewrite <- (keep_old_fold c' mn NU ND) in K. rewrite K. split.
       + intros [(A & B & C)|(A & _)]; [|discriminate].
         apply names_of_in in C. destruct C as (v & C). pose proof (VAL _ _ C) as D.
         assert (x = (fst x, v)).
@@ -62,6 +62,33 @@ Proof.
         destruct x as [p w]. simpl. eapply in_names_of; eauto. }
   rewrite KO. apply add_fresh_all_named. intros v Hv. right.
   apply SS in Hv. apply in_map_iff in Hv. destruct Hv as ([n x] & E & Hx). simpl in E. subst x.
+  intros X. destruct v as [p w]. pose proof (in_names_of c' n p w Hx) as Y. simpl in X. rewrite X in Y. exact Y.
+Qed.
+
+(** ... also when several names share a path at different versions: handing the configuration's own requirement
+    list back keeps every name at its own version *)
+Lemma transform_fixpoint_self U (c' : config) (tx : list node -> outcome (list node)) :
+  csorted c' -> (forall x, In x (map snd c') -> fst x <> []) ->
+  tx (map snd c') = Ok (map snd c') -> transform_reqs U c' tx = Ok c'.
+Proof.
+  intros CS NE Etx. unfold transform_reqs. rewrite Etx. simpl.
+  assert (NU : names_unique c') by (now apply csorted_nodup_keys).
+  set (mn := map snd c').
+  assert (KO : keep_old c' mn = c').
+  { apply csorted_ext_get; auto; [apply keep_old_csorted|]. intros n.
+    pose proof (kfold_spec c' (keep_name c' mn) NU mn [] n) as K. rewrite <- keep_old_kfold in K.
+    assert (OWN : forall x, cfg_get c' n = Some x -> cfg_get (keep_old c' mn) n = Some x).
+    { intros [p w] G. apply cfg_get_In in G. apply K. left. exists (p, w).
+      assert (Hm : In (p, w) mn) by (apply (in_map snd _ (n, (p, w))); auto).
+      split; [exact Hm|]. split; [apply (NE _ Hm)|]. split.
+      - simpl. eapply in_names_of; eauto.
+      - simpl. destruct (keep_name_cases c' mn n p w NU G) as [[_ ->]|[X _]]; [reflexivity|contradiction]. }
+    destruct (cfg_get c' n) as [x|] eqn:G; [now apply OWN|].
+    destruct (cfg_get (keep_old c' mn) n) as [y|] eqn:G'; auto. exfalso.
+    destruct (proj1 (K y) eq_refl) as [(v & Hv & A & B & C)|(X & _)]; [|discriminate].
+    apply names_of_entry in B. destruct B as (v0 & B). apply (nodup_In_get c' n _ NU) in B. congruence. }
+  rewrite KO. apply add_fresh_all_named. intros v Hv. right.
+  apply in_map_iff in Hv. destruct Hv as ([n x] & E & Hx). simpl in E. subst x.
   intros X. destruct v as [p w]. pose proof (in_names_of c' n p w Hx) as Y. simpl in X. rewrite X in Y. exact Y.
 Qed.
 
@@ -135,15 +162,13 @@ Qed.
 (** ** Get: when the build list already has the project at the version the query resolves to, get changes
     nothing.  This is the repeat of a get whose first application selected the resolved version. *)
 Theorem get_noop_when_selected pick U (c' : config) q k bl1 version :
-  csorted c' -> paths_unique c' -> wf_reqs (map snd c') -> wf_node version ->
+  csorted c' -> wf_reqs (map snd c') -> wf_node version ->
   build_list pick (e_fuel U (map snd c')) U (map snd c') = Ok bl1 ->
   resolve_query U bl1 q k = Ok version ->
   find_path (fst version) bl1 = Some (snd version) ->
   apply_op pick U c' (OpGet q k) = Ok c'.
 Proof.
-  intros CS PU WR WV E EQ SEL. simpl. apply (transform_fixpoint U c' _ (map snd c')); auto.
-  - intros x; tauto.
-  - unfold paths_unique in PU. now rewrite map_map.
+  intros CS WR WV E EQ SEL. simpl. apply (transform_fixpoint_self U c'); auto.
   - intros x Hx. apply (WR x Hx).
   - unfold get_versions. unfold build_list in E. rewrite E. simpl. rewrite EQ. simpl. rewrite SEL.
     destruct WV as [_ [s Es]]. rewrite Es. simpl. now rewrite (good_refl _ good_sv).
